@@ -28,7 +28,7 @@
 #include "hash.h"
 
 static char *magic_id = "NEOL";
-static uint32_t driver_id = 0x20260928; /* increment when driver changes */
+static uint32_t driver_id = 0x20260929; /* increment when driver changes */
 static uint64_t config_id = 0;
 static char simul_efun_path[PATH_MAX] = "";	/* the simul_efun file, relative to the mudlib */
 #ifdef NEOLITH_VERIF
